@@ -24,12 +24,16 @@ RULE = ("streams of calls (motif name, graph, root, substitution for phi and for
         "the motif). Non-trivial = the call's motif contains a cycle and the polynomial has >= 6 monomials; distinct "
         "by (nodes, edges, root, substitution)")
 EXHAUSTIVE = {"quick": True, "thorough": True}
-EXPLANATION = ("C15_enum_general: enumeration correct for all sizes and schedules; C15_identity_upto_5: polynomial identity auto = expectation for ALL 1100 labelled graphs on <= 5 "
+EXPLANATION = ("C15_identity_general (= C15_full, PROVED): for EVERY well-formed motif of any size with arbitrary vertex labels, "
+               "every root and all rational phi / heterogeneous u the automated equation equals the exact expectation "
+               "(classical regrouping of the edge subsets by the root's component, proved in general; also for every "
+               "iteration-order schedule of the enumeration: C15_identity_general_any_order); C15_enum_general / "
+               "C15_enum_ok_general: enumeration correct for all sizes and schedules; C15_identity_upto_5 (kept as an independent "
+               "check): polynomial identity auto = expectation for ALL 1100 labelled graphs on <= 5 "
                "vertices and every root (reflection, lifted through ring_correct to all rational phi, u); "
-               "C15_history, C15_exact_in_unit, C15_expectation_rec general; beyond 5 vertices the identity is checked per "
-               "run by the verified checker on the implementation's polynomial (6-7 vertices), not proved: "
-               "C15_full stays a Definition. Correspondence exhaustive over all graphs <= 4 (quick) / <= 5 (thorough) "
-               "vertices x roots.")
+               "C15_history, C15_exact_in_unit, C15_expectation_rec general; C15_check_accepts_only_model: whatever the "
+               "verified checker accepts agrees everywhere with the model's polynomial (any motif size). "
+               "Correspondence exhaustive over all graphs <= 4 (quick) / <= 5 (thorough) vertices x roots.")
 ASSUMPTIONS = [
     "networkx Graph.copy / remove_edges_from / remove_nodes_from / neighbors / is_connected / edges behave as modelled "
     "(their results are compared with the model's on every case)",
@@ -37,26 +41,38 @@ ASSUMPTIONS = [
     "motifs are simple graphs with integer vertices; distinct motifs carry distinct G.name (hypothesis of the property)",
 ]
 TRUSTED = ["exact polynomial class harness/props/poly.py (Fractions; + - * pow) standing in for phi / u"]
-TECHNIQUE = ("Coq: polynomial reflection (Ring_polynom normaliser + ring_correct, axiom-free) over all graphs on <= 5 "
+TECHNIQUE = ("Coq: general proof of the regrouping identity (weighted sums over edge subsets in edge-by-edge form, "
+             "factorisation over internal / interface / outside edges, reachability closure = path relation, general "
+             "correctness of the backtracking enumeration); independently polynomial reflection (Ring_polynom "
+             "normaliser + ring_correct, axiom-free) over all graphs on <= 5 "
              "vertices; general induction for the cache state machine and the unit-interval bound; verified checker "
              "run on the implementation's polynomial output; model/implementation correspondence")
 LEVEL_TEXT = (
-    "coq/Props/C15.v. BOUNDED: C15_identity_upto_5 - for every labelled graph on <= 5 vertices (all 1100, connected or "
-    "not) and every root the model's automated equation equals the exact expectation (explicit sum over all edge "
-    "subsets) for ALL rational phi and heterogeneous u (polynomial identity by vm_compute reflection + ring_correct); "
-    "C15_enum_ok_upto_5 - the backtracking enumeration lists every connected vertex set containing the root exactly "
-    "once. GENERAL (all sizes): C15_enum_general - for every graph and every iteration-order schedule the enumeration "
-    "returns only vertex lists grown from the root and every such vertex set exactly once; C15_history - on one evaluator, for every call history in which equal names denote "
+    "coq/Props/C15.v. GENERAL (all motif sizes, arbitrary labels): C15_identity_general / C15_full_holds - for every "
+    "well-formed motif (distinct nodes, simple edges between listed nodes, connected or not), every root of it and ALL "
+    "rational phi and heterogeneous u the model's automated equation (sum over the enumerated connected vertex sets C "
+    "containing the root of (1-phi)^#interface(C) * prod u * sum over the removable edge sets of the reduced graph) "
+    "equals the exact expectation (explicit sum over all edge subsets); C15_identity_general_any_order - the same for "
+    "every iteration-order schedule of the enumeration; C15_identity_general_poly / C15_check_accepts_only_model - the "
+    "same on the level of the reported polynomial expressions: a polynomial accepted by the verified checker agrees "
+    "at every rational point with the model's; C15_enum_general - for every graph and every iteration-order schedule "
+    "the enumeration returns only vertex lists grown from the root and every such vertex set exactly once; "
+    "C15_history_exact - end to end: on ONE evaluator, every call of every history on well-formed, distinctly named "
+    "motifs returns the exact expectation of its own arguments (or raises when the root is not a vertex); "
+    "C15_enum_ok_general - the enumeration checker's property (every networkx-connected vertex subset containing the "
+    "root exactly once, nothing else) holds for every well-formed graph, root and schedule; C15_history - on one "
+    "evaluator, for every call history in which equal names denote "
     "equal motifs, every returned value equals the value of a fresh evaluator (cache invariant); C15_exact_in_unit - "
     "0<=phi<=1, 0<=u<=1 => 0 <= expectation <= 1; C15_expectation_rec - the edge-by-edge recursive form equals the "
     "explicit sum; C15_check_sound - the checker run on the implementation's polynomial accepts only polynomials equal "
-    "to the expectation for all rational arguments. PARTIAL: the identity for motifs with more than 5 vertices is not "
-    "proved (C15_full is kept as a Definition); it is checked on every run by the verified checker for the "
-    "implementation's own output on random connected 6-7 vertex motifs.")
-LEVEL_NOTE = ("Trusted: Coq kernel incl. vm_compute; extraction + OCaml driver + Python harness and the exact "
+    "to the expectation for all rational arguments. BOUNDED, kept as independent checks of the general theorems: "
+    "C15_identity_upto_5 (all 1100 labelled graphs on <= 5 vertices, every root, vm_compute reflection + "
+    "ring_correct), C15_enum_ok_upto_5 / C15_enum_rev_ok_upto_5. Nothing of C15_full remains unproved.")
+LEVEL_NOTE = ("Trusted: Coq kernel incl. vm_compute (bounded reflection theorems and non-vacuity examples only; the "
+              "general identity is a plain proof); extraction + OCaml driver + Python harness and the exact "
               "polynomial class for the correspondence; networkx primitives as modelled. No axioms (Print Assumptions: "
               "closed under the global context). Set-iteration order of the enumeration is a schedule parameter of the "
-              "model (enum_ord); the polynomial is order-independent.")
+              "model (enum_ord); the value is proved order-independent (C15_identity_general_any_order).")
 
 IMPL_TIMEOUT = 120.0
 
